@@ -1,14 +1,121 @@
 import BppProofs.Lemmas.VecTools
 /-!
-# C07 — vector reductions match their definitions   (src/Bpp/Numeric/VectorTools.h)
+# C07 — vector reductions match their definitions
+(src/Bpp/Numeric/VectorTools.h, src/Bpp/Numeric/Stat/StatTools.cpp)
 
 Property theorems only; helper lemmas are in `Lemmas/VecTools.lean`.  Numeric statements are
-about the program text read at `ℝ` (rounding is not modelled).
+about the program text of `BppModel/VecTools.lean` read at `ℝ` (rounding is not modelled).
+Routines repaired by a `fix:` commit are stated for the repaired text; the `…Orig…` theorems are
+the machine-checked witnesses of the defects of the unrepaired text.
 -/
 namespace Bpp.C07
-open Bpp Bpp.VecTools
+open Bpp Bpp.VecTools Bpp.ScalarReal
+
+/-! ## reductions -/
 
 /-- `sum` is the sum of the elements -/
 theorem sum_spec (v : List ℝ) : VecTools.sum v = v.sum := sum_eq v
+
+/-- `prod` is the product of the elements -/
+theorem prod_spec (v : List ℝ) : VecTools.prod v = v.prod := prod_eq v
+
+/-- `cumSum` has the length of its argument and entry `i` is the sum of the first `i+1` elements -/
+theorem cumSum_spec (v : List ℝ) :
+    (cumSum v).length = v.length ∧ ∀ i, i < v.length → (cumSum v)[i]? = some (v.take (i + 1)).sum := by
+  cases v with
+  | nil => simp [cumSum]
+  | cons x xs =>
+    refine ⟨by simp [cumSum, cumSumAux_length], ?_⟩
+    intro i hi
+    cases i with
+    | zero => simp [cumSum]
+    | succ j =>
+      have hj : j < xs.length := by simpa using hi
+      simp [cumSum, cumSumAux_get x xs j hj]
+
+/-- `cumProd`: entry `i` is the product of the first `i+1` elements -/
+theorem cumProd_spec (v : List ℝ) :
+    (cumProd v).length = v.length ∧ ∀ i, i < v.length → (cumProd v)[i]? = some (v.take (i + 1)).prod := by
+  cases v with
+  | nil => simp [cumProd]
+  | cons x xs =>
+    refine ⟨by simp [cumProd, cumProdAux_length], ?_⟩
+    intro i hi
+    cases i with
+    | zero => simp [cumProd]
+    | succ j =>
+      have hj : j < xs.length := by simpa using hi
+      simp [cumProd, cumProdAux_get x xs j hj]
+
+/-- `sumProd` (repaired) is Σ v2ᵢ·v1ᵢ for equal lengths — including two empty vectors (0) -/
+theorem sumProd_spec (v1 v2 : List ℝ) (h : v1.length = v2.length) :
+    sumProd v1 v2 = .ok (List.zipWith (· * ·) v1 v2).sum := by
+  simp only [sumProd, h, ne_eq, not_true_eq_false, if_false, foldl_add_eq, zero_eq, zero_add]
+  congr 2
+  induction v1 generalizing v2 with
+  | nil => simp
+  | cons x xs ih => cases v2 with
+    | nil => simp
+    | cons y ys => simp [mul_comm]
+
+/-- witness: before the repair `sumProd` of two empty vectors read element 0 -/
+theorem sumProdOrig_empty_ub : sumProdOrig ([] : List ℝ) [] = .error .ub := by
+  rfl
+
+/-- `scalar` is Σ v1ᵢ·v2ᵢ -/
+theorem scalar_spec (v1 v2 : List ℝ) (h : v1.length = v2.length) :
+    scalar v1 v2 = .ok (List.zipWith (· * ·) v1 v2).sum := scalar_eq v1 v2 h
+
+/-! ## moments -/
+
+/-- `mean` is Σv / n -/
+theorem mean_spec (v : List ℝ) : mean v = v.sum / (v.length : ℝ) := mean_eq v
+
+/-- weighted `mean` with normalisation is (Σ vᵢ·wᵢ)/(Σ w) -/
+theorem mean_weighted_spec (v w : List ℝ) (h : v.length = w.length) :
+    meanW v w true = .ok ((List.zipWith (· * ·) v w).sum / w.sum) := meanW_eq v w h
+
+/-- weighted `mean` without normalisation is Σ vᵢ·wᵢ -/
+theorem mean_weighted_raw_spec (v w : List ℝ) (h : v.length = w.length) :
+    meanW v w false = .ok (List.zipWith (· * ·) v w).sum := by
+  simp [meanW, scalar_eq v w h]
+
+/-- `cov` is Σ (aᵢ-ā)(bᵢ-b̄) divided by `n-1` (unbiased, `n ≥ 2`) or `n` (`n ≥ 1`) -/
+theorem cov_spec (v1 v2 : List ℝ) (unbiased : Bool) (h : v1.length = v2.length)
+    (hn : (if unbiased then 2 else 1) ≤ v1.length) :
+    cov v1 v2 unbiased = .ok
+      ((List.zipWith (fun x y => (x - v1.sum / (v1.length : ℝ)) * (y - v2.sum / (v2.length : ℝ))) v1 v2).sum /
+        (if unbiased then (v1.length : ℝ) - 1 else (v1.length : ℝ))) := by
+  rw [cov_eq v1 v2 unbiased h hn, specCov_eq]
+
+/-- `var` is Σ (vᵢ-v̄)² divided by `n-1` (unbiased, `n ≥ 2`) or `n` (`n ≥ 1`) -/
+theorem var_spec (v : List ℝ) (unbiased : Bool) (hn : (if unbiased then 2 else 1) ≤ v.length) :
+    var v unbiased = .ok
+      ((v.map (fun x => (x - v.sum / (v.length : ℝ)) ^ 2)).sum /
+        (if unbiased then (v.length : ℝ) - 1 else (v.length : ℝ))) := by
+  rw [var, cov_spec v v unbiased rfl hn]
+  congr 2
+  generalize v.sum / (v.length : ℝ) = c
+  induction v with
+  | nil => simp
+  | cons x xs ih => simp [sq]
+
+/-- the covariance is symmetric (as outcomes: both raise on a size mismatch) -/
+theorem cov_symm (v1 v2 : List ℝ) (unbiased : Bool) (hn : (if unbiased then 2 else 1) ≤ v1.length) :
+    cov v1 v2 unbiased = cov v2 v1 unbiased := by
+  by_cases h : v1.length = v2.length
+  · rw [cov_eq v1 v2 unbiased h hn, cov_eq v2 v1 unbiased h.symm (h ▸ hn), specCov_symm v1 v2 unbiased h]
+  · rw [cov_mismatch v1 v2 unbiased h, cov_mismatch v2 v1 unbiased (Ne.symm h)]
+
+/-- the variance is non-negative -/
+theorem var_nonneg (v : List ℝ) (unbiased : Bool) (hn : (if unbiased then 2 else 1) ≤ v.length) :
+    ∃ x, var v unbiased = .ok x ∧ 0 ≤ x := by
+  refine ⟨_, cov_spec v v unbiased rfl hn, ?_⟩
+  apply div_nonneg (sum_zipWith_sq_nonneg v _)
+  cases unbiased with
+  | false => simp
+  | true =>
+    have : (2:ℝ) ≤ (v.length : ℝ) := by exact_mod_cast hn
+    simp only [if_true]; linarith
 
 end Bpp.C07
